@@ -144,6 +144,8 @@ class ModelBuilder:
         self.allow_custom = allow_custom
         self.depth = {0: 0}
         self.parent_of = {}
+        self.body_ops = {}
+        self.virtual_ids = []
 
     def add(self, parent, kind, name="-", body=None, frame=None):
         g = self.g
@@ -152,8 +154,10 @@ class ModelBuilder:
         jspec, qk, nb = self.jspec(kind)
         op = "add %d %s %s %s %s" % (parent, frs(frame), jspec, frs(body), name)
         self.lines.append(op)
+        self.body_ops[self.n_movable + nb - 1] = (len(self.lines) - 1, "add %d %s %s" % (parent, frs(frame), jspec), list(body), name)
         self.kinds.append((kind, "root" if parent == 0 else "inner"))
         first_new = self.n_movable
+        self.virtual_ids += list(range(first_new, first_new + nb - 1))
         self.n_movable += nb
         new_id = self.n_movable - 1
         self.qkinds += qk
@@ -167,12 +171,20 @@ class ModelBuilder:
             self.names.append(name)
         return new_id
 
+    def lines_with_body(self, bid, body):
+        """construction lines with the inertial parameters of body `bid` replaced"""
+        idx, prefix, _, name = self.body_ops[bid]
+        out = list(self.lines)
+        out[idx] = "%s %s %s" % (prefix, frs(body), name)
+        return out
+
     def add_fixed(self, parent, name="-", body=None, frame=None):
         g = self.g
         frame = frame if frame is not None else g.frame()
         body = body if body is not None else g.body()
         self.lines.append("add %d %s T Fixed %s %s" % (parent, frs(frame), frs(body), name))
         fid = FIXED_DISC + self.n_fixed
+        self.body_ops[fid] = (len(self.lines) - 1, "add %d %s T Fixed" % (parent, frs(frame)), list(body), name)
         self.n_fixed += 1
         self.ids.append(fid)
         self.real_ids.append(fid)
@@ -356,6 +368,9 @@ def random_model(g, max_joints=5, forced_root=None, forced_inner=None, allow_cus
         mb.add(parent, k, nm())
         if g.r.random() < fixed_prob:
             fp = g.r.choice(mb.ids)
+            if mb.virtual_ids and g.r.random() < 0.25:
+                fp = g.r.choice(mb.virtual_ids)      # dummy link: fixed body on a massless parent
+                g.stats["fixed-on-virtual"] += 1
             mb.add_fixed(fp, nm())
     if not inner_forced_done:
         parent = g.r.choice([i for i in mb.ids if i != 0])
